@@ -459,10 +459,13 @@ func (p *cpProxy) ServeHTTP(w http.ResponseWriter, r *http.Request) {
 // ---------------------------------------------------------------- world
 
 type cpWorld struct {
-	etcd    *cpEtcd
-	proxies []*cpProxy
-	gate    *cpGate
+	etcd        *cpEtcd
+	proxies     []*cpProxy
+	gate        *cpGate
+	lastLoadErr string
 }
+
+const cpUnloadable = -1 // the stored document exists but cannot be loaded by a proxy
 
 func (w *cpWorld) root() string { return "/" + cpCluster }
 
@@ -551,6 +554,7 @@ func getWorld(n int, variant int) (*cpWorld, error) {
 		cpWorlds[n] = w
 	}
 	w.gate.flush()
+	w.lastLoadErr = ""
 	w.etcd.mu.Lock()
 	for k := range w.etcd.files {
 		if strings.HasPrefix(k, w.root()+"/namespace/") && k != w.root()+"/namespace/"+cpBystander {
@@ -611,8 +615,13 @@ func (w *cpWorld) observe() (store int, active, prepared []int, err error) {
 	if err != nil {
 		if strings.Contains(err.Error(), "not exists") || strings.Contains(err.Error(), "Key not found") {
 			store, err = 0, nil
+		} else if _, verr := w.etcd.srv.Client().Get(w.etcd.srv.URL + "/version"); verr != nil {
+			return // the coordinator itself is unreachable: a harness problem
 		} else {
-			return
+			// the coordinator holds a document for the namespace that a proxy cannot load (decode / verify /
+			// decrypt fails, or the credentials in it are not the configuration's): not any version
+			w.lastLoadErr = err.Error()
+			store, err = cpUnloadable, nil
 		}
 	}
 	for _, p := range w.proxies {
@@ -736,6 +745,8 @@ func cpClass(v, old, target int) string {
 		return "new"
 	case v == 0:
 		return "none"
+	case v == cpUnloadable:
+		return "unloadable"
 	}
 	return "other"
 }
@@ -896,8 +907,8 @@ func runSingle(c *cpCase, res *verifkit.Result, st *cpStats) {
 			sc, pcl = strings.Replace(sc, "new", "deleted", 1), strings.Replace(pcl, "new", "deleted", 1)
 		}
 		res.Dev(fmt.Sprintf("C32 %s%s reported=%s store=%s proxies=%s cause=%s", note, c.Kind, reported, sc, pcl, cpCause(c)),
-			"%s(old=%d,new=%d) on %d proxies with placement %+v reported %s (%v); store holds %d, proxies run %v",
-			c.Kind, c.Old, target, c.N, c.Placement, reported, opErr, store, active)
+			"%s(old=%d,new=%d) on %d proxies with placement %+v reported %s (%v); store holds %d (-1 = a document no proxy can load: %s), proxies run %v",
+			c.Kind, c.Old, target, c.N, c.Placement, reported, opErr, store, w.lastLoadErr, active)
 	} else if !predicted {
 		st.drift++
 		if len(st.notes) < 5 {
